@@ -45,6 +45,7 @@ import (
 	metav1 "k8s.io/apimachinery/pkg/apis/meta/v1"
 	"k8s.io/apimachinery/pkg/runtime"
 	k8stypes "k8s.io/apimachinery/pkg/types"
+	utilerrors "k8s.io/apimachinery/pkg/util/errors"
 	"k8s.io/client-go/tools/record"
 	"sigs.k8s.io/controller-runtime/pkg/client"
 	"sigs.k8s.io/controller-runtime/pkg/controller"
@@ -328,17 +329,19 @@ func (m *ReconcilePod) podDelete(ctx context.Context, namespacedName client.Obje
 }
 
 func (m *ReconcilePod) deleteAllENI(ctx context.Context, podENI *v1beta1.PodENI) error {
+	// a failed delete must not keep the remaining eni from being deleted, nothing else would delete them
+	var errs []error
 	for _, alloc := range podENI.Spec.Allocations {
 		if alloc.ENI.ID == "" {
 			continue
 		}
 		err := m.aliyun.DeleteNetworkInterface(common.WithCtx(ctx, &alloc), alloc.ENI.ID)
 		if err != nil {
-			return err
+			errs = append(errs, err)
 		}
 	}
 
-	return nil
+	return utilerrors.NewAggregate(errs)
 }
 
 func (m *ReconcilePod) getNode(ctx context.Context, name string) (*corev1.Node, error) {
